@@ -840,7 +840,13 @@ func printsSML(p *Prog, fn *ssa.Function, f itemFormat) (detail string, decided,
 		return "", false, false
 	}
 	var bad []string
-	for _, n := range []int{0, 1, 3} {
+	for _, n := range append([]int{0, 1, 3}, extraSizes(fn)...) {
+		for len(texts) < n {
+			texts = append(texts, texts[len(texts)-1])
+			if !opaque {
+				vals = append(vals, vals[len(vals)-1])
+			}
+		}
 		in := NewInterp(p)
 		if f.ByteSz != 0 {
 			in.PathBind["p0.byteSize"] = int64Val(int64(f.ByteSz))
@@ -876,7 +882,7 @@ func printsSML(p *Prog, fn *ssa.Function, f itemFormat) (detail string, decided,
 	if len(bad) > 0 {
 		return strings.Join(bad, "; "), true, false
 	}
-	return fmt.Sprintf("evaluated on 0, 1 and 3 elements of arbitrary value the printer yields exactly <%s[n] e1 … en>, e_i being the element's text (%s)", f.SML, strings.Join(texts, " ")), true, true
+	return fmt.Sprintf("evaluated on 0, 1 and 3 elements of arbitrary value (and on sizes beyond every constant of the printer's code) the printer yields exactly <%s[n] e1 … en>, e_i being the element's text (%s)", f.SML, strings.Join(texts[:3], " ")), true, true
 }
 
 // regexPatterns lists, in source order, the regular expressions a function
@@ -1031,12 +1037,40 @@ func payloadByEvaluation(p *Prog, fn *ssa.Function, kind string) (detail string,
 				}
 			}
 		}
+		// sizes beyond every constant of the function's own code (all true,
+		// then all false)
+		for _, n := range extraSizes(fn) {
+			for _, val := range []bool{true, false} {
+				nn, vv := n, val
+				tail, ok := run(func(in *Interp) {
+					in.PathBind["p0.values"] = Val{K: KSlice, S: "p0.values", Len: nn}
+					for i := 0; i < nn; i++ {
+						in.PathBind[fmt.Sprintf("p0.values[%d]", i)] = boolVal(vv)
+					}
+				}, nn)
+				if !ok {
+					return "", false, false
+				}
+				for i, e := range tail {
+					want := int64(0)
+					if vv {
+						want = 1
+					}
+					if e.K != KInt {
+						return "", false, false
+					}
+					if e.I.Int64() != want {
+						bad = append(bad, fmt.Sprintf("element %d of %d (%v) is emitted as %s; E5 requires %d", i, nn, vv, e, want))
+					}
+				}
+			}
+		}
 		if len(bad) > 0 {
 			return strings.Join(firstN(uniq(bad), 3), "; "), true, false
 		}
-		return "evaluated on every combination of one to three booleans: each element is emitted, in order, as 1 (true) or 0 (false)", true, true
+		return fmt.Sprintf("evaluated on every combination of one to three booleans (and on %d longer nodes, beyond every constant of the encoder's code): each element is emitted, in order, as 1 (true) or 0 (false)", 2*len(extraSizes(fn))), true, true
 	case "byte":
-		for n := 1; n <= 3; n++ {
+		for _, n := range append([]int{1, 2, 3}, extraSizes(fn)...) {
 			tail, ok := run(func(in *Interp) { in.PathBind["p0.values"] = Val{K: KSlice, S: "p0.values", Len: n} }, n)
 			if !ok {
 				return "", false, false
